@@ -47,6 +47,18 @@ func verifHarness_C12_IdleInvoker() {
 	}
 	rt.Bound("threads", threads)
 	rt.MustCover("acquire:ok", "acquire:clean-failed", "acquire:cancelled", "clean:on-release", "clean:on-acquire")
+	verifC12_idleInvoker(threads, true)
+}
+
+// Three parties (one cleaning in flight and two callers waiting behind it)
+// without cancellations: cheap enough for the quick tier.
+func verifHarness_C12_IdleInvokerTwoWaiters() {
+	rt.Bound("threads", 3)
+	rt.MustCover("acquire:ok", "acquire:clean-failed", "clean:on-release", "clean:on-acquire")
+	verifC12_idleInvoker(3, false)
+}
+
+func verifC12_idleInvoker(threads int, cancels bool) {
 	g := &verifC12_ghost{}
 	ii := NewIdleInvoker(func(ctx context.Context) error {
 		g.cleaning++
@@ -67,7 +79,7 @@ func verifHarness_C12_IdleInvoker() {
 	})
 	for t := 0; t < threads; t++ {
 		ctx := &verifCtx{done: make(chan struct{})}
-		if rt.NondetBool("context cancelled up front") {
+		if cancels && rt.NondetBool("context cancelled up front") {
 			ctx.cancel()
 		}
 		rt.Go(func() {
